@@ -437,7 +437,7 @@ def _cx_flat(prog, chk, cx, loop, amp, c, t):
     if not sw or sw[0] != 'flat':
         return False
     F = KT.Folder()
-    cb, tb = [], []
+    cb, tb, bb = [], [], []
     for s_ in cx.body['body']:
         if s_['k'] == 'decls':
             for v in s_['d']:
@@ -450,11 +450,14 @@ def _cx_flat(prog, chk, cx, loop, amp, c, t):
                     cb.append(v['id'])
                 if term == KT.op('<<', KT.I(1), KT.S(t['name'])):
                     tb.append(v['id'])
+                if term in (KT.op('|', KT.op('<<', KT.I(1), KT.S(c['name'])), KT.op('<<', KT.I(1), KT.S(t['name']))),
+                            KT.op('|', KT.op('<<', KT.I(1), KT.S(t['name'])), KT.op('<<', KT.I(1), KT.S(c['name'])))):
+                    bb.append(v['id'])
     if not cb or not tb:
         return False
     cells = [(0, 0), (0, 1), (1, 0), (1, 1)]
     want = {(0, 0): 'S00', (0, 1): 'S01', (1, 0): 'S11', (1, 1): 'S10'}
-    it = KP.QuadIter(amp, sw[1]['id'], cb, tb)
+    it = KP.QuadIter(amp, sw[1]['id'], cb, tb, bb)
     for lt, order in ((True, [(0, 0), (1, 0), (0, 1), (1, 1)]), (False, [(0, 0), (0, 1), (1, 0), (1, 1)])):
         state = {x: 'S%d%d' % x for x in cells}
         try:
